@@ -15,7 +15,9 @@ RULE = (
     "sparse memo keys incl. 1, 2 and 321987, constrained to leave exactly the result on the "
     "stack) x every injection mode (insert_python run-first/last x keep/replace; "
     "insert_python_eval and insert_python_exec in the same four flag combinations; append_python "
-    "with/without pop_result; insert_function_call_on_unpickled_object plain/precompiled "
+    "with/without pop_result; the same two helpers injecting an argument-less callable of a benign "
+    "standard-library module (platform.python_implementation); "
+    "insert_function_call_on_unpickled_object plain/precompiled "
     "with/without constant_args; insert_magic_int at index -1 / 0 / middle) x loader (accelerated "
     "unpickler; pure-Python unpickler for unframed bases). Oracle: sink log = the base's own "
     "effects in their original order + the payload exactly once with exactly the given "
@@ -51,8 +53,10 @@ for rf in (True, False):
         MODES.append(("insert_python", {"run_first": rf, "use_output_as_unpickle_result": uo}))
         MODES.append(("insert_python_eval", {"run_first": rf, "use_output_as_unpickle_result": uo}))
         MODES.append(("insert_python_exec", {"run_first": rf, "use_output_as_unpickle_result": uo}))
+        MODES.append(("insert_python_stdlib", {"run_first": rf, "use_output_as_unpickle_result": uo}))
 for pr in (True, False):
     MODES.append(("append_python", {"pop_result": pr}))
+    MODES.append(("append_python_stdlib", {"pop_result": pr}))
 for cc in (False, True):
     for ca in (None, [1, "a"]):
         MODES.append(("function_call", {"compile_code": cc, "constant_args": ca}))
@@ -71,6 +75,11 @@ def apply_mode(p, mode, kw):
         p.insert_python_eval(EVAL_SRC, **kw)
     elif mode == "insert_python_exec":
         p.insert_python_exec(EXEC_SRC, **kw)
+    elif mode == "insert_python_stdlib":
+        # a harmless callable from a benign standard-library module, no arguments
+        p.insert_python(module="platform", attr="python_implementation", **kw)
+    elif mode == "append_python_stdlib":
+        p.append_python(module="platform", attr="python_implementation", **kw)
     elif mode == "append_python":
         p.append_python(PAYLOAD_TAG, ARG2[0], module="verif_sink", attr="sink", **kw)
     elif mode == "function_call":
@@ -176,7 +185,7 @@ def check(data, mode, kw, loader):
     ref = run_ref(strip_frames(out))
     if not ref.ok:
         return fail(f"reference VM rejects the rewritten bytes: {ref.error!r}")
-    keeps_obj_below = mode == "append_python" and not kw["pop_result"]
+    keeps_obj_below = mode in ("append_python", "append_python_stdlib") and not kw["pop_result"]
     if ref.stack_at_stop != ([], []) and not keeps_obj_below:
         return fail(f"VM stack not empty at STOP: {ref.stack_at_stop!r}")
     base_fc = [e for e in base["ref"].log.events if e[0] == "import"]
@@ -191,9 +200,10 @@ def check(data, mode, kw, loader):
     value, log = res[1], res[2]
     payload_calls = [e for e in log if is_payload(e)]
     base_calls = [e for e in log if not is_payload(e)]
-    if mode == "magic_int":
+    stdlib_mode = mode.endswith("_stdlib")  # the injected call is not observable through the sink
+    if mode == "magic_int" or stdlib_mode:
         if payload_calls:
-            return fail("marker integer ran a call")
+            return fail("a call of the sink appeared that nobody injected")
     else:
         if len(payload_calls) != 1:
             return fail(f"injected call ran {len(payload_calls)} times (sink log {log!r})")
@@ -207,7 +217,7 @@ def check(data, mode, kw, loader):
             return fail(f"injected call received {args!r} {kws!r}, expected {want_args!r}")
     if base_calls != base["log"]:
         return fail(f"base effects changed: {base_calls!r} vs original {base['log']!r}")
-    if mode != "magic_int":
+    if mode != "magic_int" and not stdlib_mode:
         first = kw.get("run_first")
         if first is True and base["log"] and not is_payload(log[0]):
             return fail("run_first=True but the injected call did not run before the base's effects")
@@ -215,7 +225,13 @@ def check(data, mode, kw, loader):
             return fail("run_first=False but the injected call did not run after the base's effects")
     # return value
     sink_ret = lambda *a: ("sunk", a, ())  # noqa: E731
-    if mode in ("insert_python", "insert_python_eval", "insert_python_exec"):
+    import platform
+
+    if mode == "insert_python_stdlib":
+        want = platform.python_implementation() if kw["use_output_as_unpickle_result"] else base["value"]
+    elif mode == "append_python_stdlib":
+        want = base["value"] if kw["pop_result"] else platform.python_implementation()
+    elif mode in ("insert_python", "insert_python_eval", "insert_python_exec"):
         if kw["use_output_as_unpickle_result"]:
             want = None if mode == "insert_python_exec" else (
                 sink_ret(PAYLOAD_TAG, ARG2[0]) if mode == "insert_python" else sink_ret(PAYLOAD_TAG)
@@ -348,7 +364,7 @@ def run_shard(spec, seed):
                 if mode == "function_call" and loader == "py":
                     res.excluded["KF-C08-1 function-call helper under pure-Python unpickler"] += 1
                     continue
-                if mode == "append_python" and not kw["pop_result"]:
+                if mode in ("append_python", "append_python_stdlib") and not kw["pop_result"]:
                     res.excluded["KF-C08-2 stack-empty clause for append_python(pop_result=False)"] += 1
                 f, klass = check(data, mode, kw, loader)
                 nt = klass == "checked" and _nt(data, kind)
